@@ -27,6 +27,12 @@ func vC14Early(L int) {
 		vPost.fail = int64(1 + vChoice("fail", L))
 	}
 	p := &vProbe{name: "src"}
+	if vChoice("sync", 2) == 1 {
+		// the source delivers a first value inside its subscribe call (as a BehaviorSubject, a
+		// StartWith or a replay does) and then stays alive: the early terminator may fire before
+		// the operator holds the subscription it has to release
+		p.cold, p.script = true, []vStep{{vkNext, vInt64("v_sync")}}
+	}
 	c := &vCtx{src: []Observable[int64]{p}, L: L}
 	pipe := op.mk(c)
 	rec := &vRecorder{}
@@ -89,8 +95,13 @@ func vC14Multi(L int) {
 	}
 	probes := make([]*vProbe, op.nsrc)
 	srcs := make([]Observable[int64], op.nsrc)
+	syncFirst := vChoice("sync", 2) == 1
 	for i := range probes {
 		probes[i] = &vProbe{name: "src" + vItoa(i)}
+		if syncFirst {
+			// every source delivers a first value inside its subscribe call and stays alive
+			probes[i].cold, probes[i].script = true, []vStep{{vkNext, vInt64("v_sync" + vItoa(i))}}
+		}
 		srcs[i] = probes[i]
 	}
 	c := &vCtx{src: srcs, L: L}
